@@ -223,17 +223,16 @@ Fixpoint be_volatile_late_from (seen_write : bool) (l : list (action * out)) : b
   | _ :: t => be_volatile_late_from seen_write t
   end.
 
-(* C01: 1 = a fragmented sample is involved (C01-frag-repair); 2 = KEEP_LAST history with several
-   instances, i.e. holes that are announced by GAPs (C01-gap-skip) *)
+(* C01: 1 = KEEP_LAST history with several instances, i.e. interior holes that are announced by GAPs
+   (C01-gap-skip) *)
 Definition C01_known (k : Rel_case) : N :=
-  if has_frag k then 1%N else if multi_key_keep_last k then 2%N else 0%N.
+  if multi_key_keep_last k then 1%N else 0%N.
 Definition C02_known (k : Rel_case) : N := 0%N.
-(* C03: 1 = the reader or its participant was deleted (C03-stale-proxy); 2 = GAP skip (C03-gap-skip-ack);
-   3 = fragmented sample never repaired (C03-frag-repair) *)
+(* C03: 1 = the reader or its participant was deleted (C03-stale-proxy); 2 = GAP skip (C03-gap-skip-ack) *)
 Definition C03_known (k : Rel_case) : N :=
-  if reader_gone k then 1%N else if has_frag k then 3%N else if multi_key_keep_last k then 2%N else 0%N.
+  if reader_gone k then 1%N else if multi_key_keep_last k then 2%N else 0%N.
 (* C04: 1 = best-effort VOLATILE late joiner (C04-volatile-besteffort-history); 2 = GAP skip
-   (C04-gap-skip-history); 3 = fragmented history sample never repaired (C04-frag-repair) *)
+   (C04-gap-skip-history) *)
 Definition C04_known (k : Rel_case) : N :=
   if be_volatile_late_from false (k_trace k) then 1%N
-  else if has_frag k then 3%N else if multi_key_keep_last k then 2%N else 0%N.
+  else if multi_key_keep_last k then 2%N else 0%N.
